@@ -119,7 +119,16 @@ class Check:
         self.seed = int(seed if seed is not None else os.environ.get("VERIF_SEED", "1"))
         self.replay = replay
         self.t0 = time.time()
-        self.work = os.path.join(VERIF, ".work", pid)
+        # one scratch directory per RUN (several runs of the same check may be going on: sweeps, seeded-change runs,
+        # quick + thorough): .work/<Cnn>.<process id>; directories left by runs whose process is gone are removed
+        wroot = os.path.join(VERIF, ".work")
+        os.makedirs(wroot, exist_ok=True)
+        for d in os.listdir(wroot):
+            if d == pid or d.startswith(pid + "."):
+                owner = d.split(".")[-1]
+                if not (owner.isdigit() and os.path.exists("/proc/" + owner)):
+                    shutil.rmtree(os.path.join(wroot, d), ignore_errors=True)
+        self.work = os.path.join(wroot, "%s.%d" % (pid, os.getpid()))
         shutil.rmtree(self.work, ignore_errors=True)
         os.makedirs(self.work, exist_ok=True)
         self.rng = random.Random(self.seed)
